@@ -352,3 +352,56 @@ Definition run (P : params) (metrics : list (Z * Z)) (ros : list (list path))
 Definition check (P : params) (metrics : list (Z * Z)) (ros : list (list path))
   (crashes : list nat) (impl : list obs) : bool :=
   list_eqb obs_eqb (run P metrics ros crashes) impl.
+
+(* ---------- crashes as a relation (used to state the theorems) ------------ *)
+
+(* the next update a freshly started controller would make on disk [d]:
+   None = nothing left to do, Some None = ValueError, Some (Some (ops, row)) *)
+Definition attempt (P : params) (E : env) (d : disk) (cn : nat)
+  : option (option (list fsop * row)) :=
+  let c := read_cache (csv d) in
+  match skipn (last_epoch c) (ms E) with
+  | [] => None
+  | (tr, va) :: _ => Some (update_ops P d c tr va cn (pv E cn) (ro E cn))
+  end.
+
+(* every disk state that any sequence of (possibly crashed) updates can leave behind:
+   each step performs the first k file-system calls of the next update (all of them when
+   k >= their number) *)
+Inductive reach (P : params) (E : env) : disk -> nat -> Prop :=
+| reach_init : reach P E empty_disk 0
+| reach_step d cn ops r k :
+    reach P E d cn -> attempt P E d cn = Some (Some (ops, r)) ->
+    reach P E (apply_ops d (firstn k ops)) (S cn).
+
+(* crash-free *)
+Inductive reach_full (P : params) (E : env) : disk -> nat -> Prop :=
+| rf_init : reach_full P E empty_disk 0
+| rf_step d cn ops r :
+    reach_full P E d cn -> attempt P E d cn = Some (Some (ops, r)) ->
+    reach_full P E (apply_ops d ops) (S cn).
+
+(* at most one crash per epoch: a crashed update is followed by a completed one *)
+Inductive reach_c1 (P : params) (E : env) : disk -> nat -> Prop :=
+| c1_init : reach_c1 P E empty_disk 0
+| c1_full d cn ops r :
+    reach_c1 P E d cn -> attempt P E d cn = Some (Some (ops, r)) ->
+    reach_c1 P E (apply_ops d ops) (S cn)
+| c1_crash_full d cn ops r k ops' r' :
+    reach_c1 P E d cn -> attempt P E d cn = Some (Some (ops, r)) ->
+    attempt P E (apply_ops d (firstn k ops)) (S cn) = Some (Some (ops', r')) ->
+    reach_c1 P E (apply_ops (apply_ops d (firstn k ops)) ops') (S (S cn)).
+
+Inductive reach1 (P : params) (E : env) : disk -> nat -> Prop :=
+| r1_clean d cn : reach_c1 P E d cn -> reach1 P E d cn
+| r1_crash d cn ops r k :
+    reach_c1 P E d cn -> attempt P E d cn = Some (Some (ops, r)) ->
+    reach1 P E (apply_ops d (firstn k ops)) (S cn).
+
+(* the disk after a process started on [d] has run to the end without dying *)
+Definition final (P : params) (E : env) (d : disk) (cn : nat) : disk :=
+  fst (fst (fst (start P E d cn None))).
+
+(* the history table the metrics define: epoch e has the e-th pair *)
+Fixpoint hist_from (e : nat) (l : list (Z * Z)) : list (nat * (Z * Z)) :=
+  match l with [] => [] | m :: t => (e, m) :: hist_from (S e) t end.
